@@ -28,6 +28,14 @@
 #include "stir/ProjDataInfoCylindricalNoArcCorr.h"
 #include "stir/ProjDataInfoGenericNoArcCorr.h"
 #include "stir/Sinogram.h"
+#include "stir/ExamInfo.h"
+#include "stir/ProjDataInMemory.h"
+#include "stir/RelatedViewgrams.h"
+#include "stir/SegmentBySinogram.h"
+#include "stir/SegmentByView.h"
+#include "stir/Viewgram.h"
+#include "stir/ViewSegmentNumbers.h"
+#include "stir/recon_buildblock/DataSymmetriesForBins_PET_CartesianGrid.h"
 #include "stir/Succeeded.h"
 #include "stir/modulo.h"
 #include "stir/round.h"
@@ -131,6 +139,16 @@ make_scanner(const Cfg& c)
       return s;
     }
   const std::string geometry = c.geom == "cyl" ? "Cylindrical" : (c.geom == "blocks" ? "BlocksOnCylindrical" : "Generic");
+  if (c.geom == "blocks" && c.tof_bins > 0)
+    {
+      // Scanner::set_up builds GeometryBlocksOnCylindrical (whose constructor runs check_consistency, which for a TOF scanner compares the
+      // coincidence window with get_max_FOV_radius()) BEFORE initialise_max_FOV_radius(): the check reads an uninitialised member.
+      // Not C12's subject; to get a deterministic answer we first build and drop the non-TOF twin, whose storage (and value) is reused.
+      Cfg twin = c;
+      twin.tof_bins = -1;
+      twin.tof_mash = 0;
+      make_scanner(twin);
+    }
   shared_ptr<Scanner> s(new Scanner(Scanner::User_defined_scanner, std::string("verif_c12"), c.N, c.R,
                                     /*max_num_non_arccorrected_bins*/ std::max(1, c.N - 1),
                                     /*default_num_arccorrected_bins*/ std::max(1, c.N / 2 - 1), c.radius, c.doi, c.spacing, c.binsize,
@@ -253,9 +271,11 @@ run_tof(const ProjDataInfo& p, vh::Rng& rng)
 // coordinates, LOR round trip and detector agreement for one projection-data geometry
 struct Stats
 {
-  long bins = 0, rt_same = 0, rt_step = 0, rt_wrap = 0, rt_miss = 0, det_checked = 0;
+  long bins = 0, rt_same = 0, rt_step = 0, rt_wrap = 0, rt_miss = 0, det_checked = 0, reps = 0, found = 0, arc_rows = 0;
 };
 static Stats total;
+// the conversion cylinder -> sinogram coordinates of LORCoordinates.inl reverses the direction of some LORs (probed once in main)
+static bool lor_dir_defect_present = false, lor_dir_defect_applies = false, view_wrap_defect_present = false;
 
 static void
 run_pdi(const Cfg& c, const shared_ptr<Scanner>& scanner, const shared_ptr<ProjDataInfo>& pdi0, vh::Rng& rng)
@@ -312,6 +332,19 @@ run_pdi(const Cfg& c, const shared_ptr<Scanner>& scanner, const shared_ptr<ProjD
         pg->find_cartesian_coordinates_given_scanner_coordinates(a1, a2, 0, R - 1, 0, N / 2);
       z_centre = (double(a1.z()) + a2.z()) / 2;
     }
+
+  // arc-corrected data have no detectors of their own: their angles, axial coordinate and obliqueness must be those of the
+  // detector-based (non-arc-corrected) geometry of the same scanner, span and number of views
+  shared_ptr<ProjDataInfo> noarc_ref;
+  if (pa)
+    try
+      {
+        noarc_ref = vh::make_pdi(scanner, c.span, c.max_delta, c.views, std::min(scanner->get_max_num_non_arccorrected_bins(), N - 1), false,
+                                 c.tof_mash);
+      }
+    catch (...)
+      {
+      }
 
   std::size_t idx = 0;
   for (const Bin& b : bins)
@@ -398,6 +431,18 @@ run_pdi(const Cfg& c, const shared_ptr<Scanner>& scanner, const shared_ptr<ProjD
             if (!near(d, pa->get_tangential_sampling(), tol) || !near(p.get_sampling_in_s(b), d, tol)
                 || !near(s, tp * double(pa->get_tangential_sampling()), tol))
               ofail("arc-uniform", "arc-corrected data without uniform tangential sampling at bin " + bstr(b));
+            if (noarc_ref && sg >= noarc_ref->get_min_segment_num() && sg <= noarc_ref->get_max_segment_num())
+              {
+                ++oracle_checks;
+                const Bin b0(sg, v, a, 0, t, 1.F);
+                const double tt0 = noarc_ref->get_tantheta(b0); // at s = 0: ring difference * spacing / (2 R)
+                if (!near(noarc_ref->get_phi(b0), phi, 1e-5) || !near(noarc_ref->get_m(b0), m, 1e-5 * axial_len)
+                    || !near(noarc_ref->get_k(b0), k, 1e-5 * (1 + std::fabs(k)))
+                    || !near(tt * std::sqrt(std::max(0., Reff * Reff - s * s)), tt0 * Reff, 1e-4 * (1 + std::fabs(tt0)) * Reff))
+                  ofail("arc-vs-detectors", "arc-corrected bin " + bstr(b)
+                                                + " does not have the view angle / axial position / obliqueness / TOF distance of the "
+                                                  "detector-based geometry of the same scanner");
+              }
           }
       }
 
@@ -422,100 +467,214 @@ run_pdi(const Cfg& c, const shared_ptr<Scanner>& scanner, const shared_ptr<ProjD
             || !near(l.tantheta, tt, 2e-5 * (1 + std::fabs(tt)) * (rl * rl) / std::max(1e-9, rl * rl - s * s)))
           ofail("lor-line", "get_LOR is not the line (get_s,get_phi,get_m,get_tantheta) of bin " + bstr(b));
       }
-      // round trip
+      // round trip: get_bin of the line of response of the bin, given in every LOR representation
       {
-        Bin nb;
-        bool err = false;
         const double dtime = p.get_tof_delta_time(b);
-        try
-          {
-            if (pg)
-              { // generic geometries only accept a pair of points
-                LORAs2Points<float> pts;
-                lor.get_intersections_with_cylinder(pts, lor.radius());
-                nb = p.get_bin(pts, dtime);
-              }
-            else
-              nb = p.get_bin(lor, dtime);
+        const int lo_rd = pc->get_min_ring_difference(sg), hi_rd = pc->get_max_ring_difference(sg);
+        // classification of a result `nb` of get_bin for a line whose direction is that of the bin (sign=+1) or reversed (sign=-1:
+        // the TOF bin changes sign); `count`: add to the statistics (the representation returned by get_LOR only)
+        auto judge = [&](const Bin& nb, const bool err, const bool miss, const int sign, const std::string& label, const bool count) -> bool {
+          const int te = sign * t; // expected TOF bin
+          ++oracle_checks;
+          if (err)
+            ofail("roundtrip-exception" + label, "get_bin(get_LOR(bin)) throws for bin " + bstr(b));
+          else if (pa)
+            {
+              // (all TOF bins: get_bin is given get_tof_delta_time(bin))
+              if (miss || nb.segment_num() != sg || nb.view_num() != v || nb.axial_pos_num() != a || nb.tangential_pos_num() != tp
+                  || nb.timing_pos_num() != te)
+                {
+                  if (label == "-cyl" || label == "-cylrev" || label == "-pts" || label == "-str" || label == "-rev")
+                    {
+                      // view 0 whose angle, recomputed from the end points, comes out a rounding error below the azimuthal offset:
+                      // to_0_2pi gives 2pi - epsilon, round gives 2*num_views, "view > max_view => subtract num_views" gives num_views
+                      // (at the first tangential position of an even-sized range the negated position is outside the data: miss)
+                      if (view_wrap_defect_present && v == 0
+                          && (miss ? (-tp < mintp || -tp > maxtp)
+                                   : (nb.view_num() == V && nb.segment_num() == -sg && nb.axial_pos_num() == a
+                                      && nb.tangential_pos_num() == -tp
+                                      && (nb.timing_pos_num() == -te || (lor_dir_defect_applies && nb.timing_pos_num() == te)))))
+                        {
+                          known("arccorr:get_bin-returns-view-equal-to-num_views",
+                                "ProjDataInfoCylindricalArcCorr::get_bin returns view_num == get_num_views() (out of range; segment and "
+                                "tangential position negated) for the LOR of a bin of view 0 given in cylinder coordinates or as two points: "
+                                "the angle recomputed from the end points is a rounding error below the azimuthal offset, to_0_2pi maps it to "
+                                "just under 2 pi, round gives 2*num_views and only num_views is subtracted");
+                          return true;
+                        }
+                      // is it only the direction (TOF sign) that is wrong, for a cylinder LOR with psi1 - psi2 in (pi, 2pi) ?
+                      if (!miss && nb.segment_num() == sg && nb.view_num() == v && nb.axial_pos_num() == a
+                          && nb.tangential_pos_num() == tp && nb.timing_pos_num() == -te && lor_dir_defect_applies)
+                        {
+                          known("lor:cylinder-to-sinogram-direction",
+                                "LORInAxialAnd(NoArcCorr)SinogramCoordinates constructed from a LORInCylinderCoordinates with psi1 - psi2 in "
+                                "(pi, 2pi) and (psi1+psi2-pi)/2 < pi exchanges the two end points but reports is_swapped() == false "
+                                "(get_sino_coords, LORCoordinates.inl): the direction of the LOR is reversed, and "
+                                "ProjDataInfoCylindricalArcCorr::get_bin of such a LOR (cylinder coordinates or two points) returns the opposite "
+                                "TOF bin");
+                          return true;
+                        }
+                    }
+                  ofail("roundtrip-arccorr" + label, "arc-corrected round trip does not return the same bin for " + bstr(b) + " -> "
+                                                         + (miss ? std::string("miss") : bstr(nb)) + (sign < 0 ? " (direction reversed)" : ""));
+                }
+              else if (count)
+                ++total.rt_same;
+            }
+          else if (pn)
+            {
+              if (miss)
+                {
+                  if (count)
+                    ++total.rt_miss;
+                  const double avg = pc->get_average_ring_difference(sg);
+                  const int margin = (int)std::max(std::ceil(avg - lo_rd), std::ceil(hi_rd - avg));
+                  const bool axial_edge
+                      = lo_rd != hi_rd && (a < p.get_min_axial_pos_num(sg) + margin || a > p.get_max_axial_pos_num(sg) - margin);
+                  if (!axial_edge)
+                    {
+                      if (tp == mintp || tp == maxtp)
+                        known("roundtrip:miss-at-tangential-edge",
+                              "get_bin(get_LOR(bin)) reports a miss for a bin at the first/last tangential position that is not at the "
+                              "axial edge of a compressed segment: rounding to the nearest detectors moves the bin one tangential step "
+                              "outwards, out of the tangential range of the data (at |tp| = N/2-1: onto one and the same detector)");
+                      else
+                        ofail("roundtrip-miss" + label, "get_bin(get_LOR(bin)) misses although the bin is not at an edge: " + bstr(b));
+                    }
+                }
+              else
+                {
+                  const int dv = std::abs(nb.view_num() - v);
+                  // stepping between the last and the first view reverses the signs (with two views both readings are possible)
+                  bool wrap = dv > V - dv;
+                  const int dview = std::min(dv, V - dv);
+                  if (dv == V - dv && nb.segment_num() == -sg && nb.segment_num() != sg)
+                    wrap = true;
+                  if (dv == V - dv && sg == 0 && std::abs(nb.tangential_pos_num() + tp) < std::abs(nb.tangential_pos_num() - tp))
+                    wrap = true;
+                  const int dseg = wrap ? nb.segment_num() + sg : nb.segment_num() - sg;
+                  const int dtp = wrap ? nb.tangential_pos_num() + tp : nb.tangential_pos_num() - tp;
+                  const int dtof = wrap ? nb.timing_pos_num() + te : nb.timing_pos_num() - te;
+                  const int dax = nb.axial_pos_num() - a;
+                  const bool exact = nb.segment_num() == sg && nb.view_num() == v && nb.axial_pos_num() == a
+                                     && nb.tangential_pos_num() == tp && nb.timing_pos_num() == te;
+                  if (dseg != 0 || dtof != 0 || dview > 1 || std::abs(dtp) > 1 || std::abs(dax) > 1
+                      || (V > 2 && wrap && dview == 0))
+                    ofail("roundtrip-step" + label, "get_bin(get_LOR(bin)) is more than one step away: " + bstr(b) + " -> " + bstr(nb)
+                                                        + (sign < 0 ? " (direction reversed)" : ""));
+                  else if (!count)
+                    {
+                    }
+                  else if (exact)
+                    ++total.rt_same;
+                  else if (wrap)
+                    ++total.rt_wrap;
+                  else
+                    ++total.rt_step;
+                  // even tangential position, no mashing, no axial compression: exact
+                  if (tp % 2 == 0 && mash == 1 && lo_rd == hi_rd && !exact)
+                    ofail("roundtrip-even" + label, "round trip of an uncompressed bin with even tangential position is not exact: "
+                                                        + bstr(b) + " -> " + bstr(nb));
+                }
+            }
+          return false;
+        };
+        auto call_get_bin = [&](const LOR<float>& l, Bin& nb, bool& err, bool& miss) {
+          err = false;
+          try
+            {
+              nb = p.get_bin(l, dtime);
+            }
+          catch (...)
+            {
+              err = true;
+            }
+          miss = !err && nb.get_bin_value() <= 0;
+        };
+        Bin nb;
+        bool err = false, miss = false;
+        if (pg)
+          { // generic geometries only accept a pair of points
+            LORAs2Points<float> pts;
+            lor.get_intersections_with_cylinder(pts, lor.radius());
+            call_get_bin(pts, nb, err, miss);
           }
-        catch (...)
-          {
-            err = true;
-          }
-        const bool miss = !err && nb.get_bin_value() <= 0;
+        else
+          call_get_bin(lor, nb, err, miss);
         if (to_model && !pg)
           {
             std::fprintf(ops, "rt %s\n", bstr(b).c_str());
             std::fprintf(out, "%s\n", err ? "err" : (miss ? "miss" : bstr(nb).c_str()));
           }
-        ++oracle_checks;
-        if (err)
-          ofail("roundtrip-exception", "get_bin(get_LOR(bin)) throws for bin " + bstr(b));
-        else if (pa)
+        judge(nb, err, miss, +1, "", true);
+
+        // ---- the same geometric line in the other LOR types, with end points moved along the line, and with its direction reversed
+        if (!pg && (to_model || idx % 3 == 0))
           {
-            // (all TOF bins: get_bin is given get_tof_delta_time(bin))
-            if (miss || !(nb == b))
-              ofail("roundtrip-arccorr", "arc-corrected round trip does not return the same bin for " + bstr(b) + " -> "
-                                             + (miss ? std::string("miss") : bstr(nb)));
-            else
-              ++total.rt_same;
-          }
-        else if (pn)
-          {
-            if (miss)
+            ++total.reps;
+            const LORInCylinderCoordinates<float> cyl(lor);
+            const LORInAxialAndSinogramCoordinates<float> sino(lor);
+            const LORAs2Points<float> pts(lor);
+            const int fa = rng.range(-2, 8), fb = rng.range(-2, 8); // eighths of the chord; negative: moved inwards
+            const CartesianCoordinate3D<float> dvec = pts.p1() - pts.p2();
+            const LORAs2Points<float> str(pts.p1() + dvec * (fa / 8.F), pts.p2() - dvec * (fb / 8.F));
+            const LORAs2Points<float> rev(str.p2(), str.p1());
+            const LORInCylinderCoordinates<float> cylrev(cyl.p2(), cyl.p1(), cyl.radius());
+            const LORInAxialAndNoArcCorrSinogramCoordinates<float> narev(lor.z1(), lor.z2(), lor.phi(), lor.beta(), lor.radius(),
+                                                                         !lor.is_swapped());
+            const LORInAxialAndSinogramCoordinates<float> sinorev(sino.z1(), sino.z2(), sino.phi(), sino.s(), sino.radius(),
+                                                                  !sino.is_swapped());
+            struct Rep
+            {
+              const char* name;
+              const LOR<float>* l;
+              int sign;
+            };
+            const Rep reps[] = { { "cyl", &cyl, 1 },       { "sino", &sino, 1 },    { "pts", &pts, 1 },       { "str", &str, 1 },
+                                 { "rev", &rev, -1 },      { "cylrev", &cylrev, -1 }, { "narev", &narev, -1 }, { "sinorev", &sinorev, -1 } };
+            // rounding ties: the end points of the LOR sit exactly on detectors / rings iff ...
+            const bool no_tie = pa || (lo_rd == hi_rd && ((mash - 1 + tp) % 2 == 0));
+            for (const Rep& r : reps)
               {
-                ++total.rt_miss;
-                const int lo = pc->get_min_ring_difference(sg), hi = pc->get_max_ring_difference(sg);
-                const double avg = pc->get_average_ring_difference(sg);
-                const int margin = (int)std::max(std::ceil(avg - lo), std::ceil(hi - avg));
-                const bool axial_edge
-                    = lo != hi && (a < p.get_min_axial_pos_num(sg) + margin || a > p.get_max_axial_pos_num(sg) - margin);
-                if (!axial_edge)
+                // (the conversion cylinder -> sinogram coordinates reverses the direction iff psi1 - psi2 in (pi,2pi): see `known` above)
+                {
+                  const LORInCylinderCoordinates<float>& cc = r.sign > 0 ? cyl : cylrev;
+                  const double d12 = double(cc.p1().psi()) - cc.p2().psi();
+                  lor_dir_defect_applies = lor_dir_defect_present && d12 > PI - 1e-3;
+                }
+                Bin rb;
+                bool rerr, rmiss;
+                call_get_bin(*r.l, rb, rerr, rmiss);
+                if (to_model)
                   {
-                    if (tp == mintp || tp == maxtp)
-                      known("roundtrip:miss-at-tangential-edge",
-                            "get_bin(get_LOR(bin)) reports a miss for a bin at the first/last tangential position that is not at the "
-                            "axial edge of a compressed segment: rounding to the nearest detectors moves the bin one tangential step "
-                            "outwards, out of the tangential range of the data (at |tp| = N/2-1: onto one and the same detector)");
-                    else
-                      ofail("roundtrip-miss", "get_bin(get_LOR(bin)) misses although the bin is not at an edge: " + bstr(b));
+                    std::fprintf(ops, "rtx %s %s %d %d\n", r.name, bstr(b).c_str(), fa, fb);
+                    std::fprintf(out, "%s\n", rerr ? "err" : (rmiss ? "miss" : bstr(rb).c_str()));
+                  }
+                const bool known_defect = judge(rb, rerr, rmiss, r.sign, std::string("-") + r.name, false);
+                // without rounding ties every representation gives the very same answer
+                if (no_tie && !err && !rerr && !known_defect)
+                  {
+                    ++oracle_checks;
+                    const bool same = miss == rmiss
+                                      && (miss
+                                          || (rb.segment_num() == nb.segment_num() && rb.view_num() == nb.view_num()
+                                              && rb.axial_pos_num() == nb.axial_pos_num()
+                                              && rb.tangential_pos_num() == nb.tangential_pos_num()
+                                              && rb.timing_pos_num() == r.sign * nb.timing_pos_num()));
+                    if (!same)
+                      ofail(std::string("rep-differs-") + r.name,
+                            "get_bin of the LOR of bin " + bstr(b) + " given as " + r.name + " is " + (rmiss ? std::string("miss") : bstr(rb))
+                                + " but " + (miss ? std::string("miss") : bstr(nb)) + " for the object returned by get_LOR");
                   }
               }
-            else
-              {
-                const int dv = std::abs(nb.view_num() - v);
-                // stepping between the last and the first view reverses the signs (with two views both readings are possible)
-                bool wrap = dv > V - dv;
-                const int dview = std::min(dv, V - dv);
-                if (dv == V - dv && nb.segment_num() == -sg && nb.segment_num() != sg)
-                  wrap = true;
-                if (dv == V - dv && sg == 0 && std::abs(nb.tangential_pos_num() + tp) < std::abs(nb.tangential_pos_num() - tp))
-                  wrap = true;
-                const int dseg = wrap ? nb.segment_num() + sg : nb.segment_num() - sg;
-                const int dtp = wrap ? nb.tangential_pos_num() + tp : nb.tangential_pos_num() - tp;
-                const int dtof = wrap ? nb.timing_pos_num() + t : nb.timing_pos_num() - t;
-                const int dax = nb.axial_pos_num() - a;
-                if (dseg != 0 || dtof != 0 || dview > 1 || std::abs(dtp) > 1 || std::abs(dax) > 1
-                    || (V > 2 && wrap && dview == 0))
-                  ofail("roundtrip-step", "get_bin(get_LOR(bin)) is more than one step away: " + bstr(b) + " -> " + bstr(nb));
-                else if (nb == b)
-                  ++total.rt_same;
-                else if (wrap)
-                  ++total.rt_wrap;
-                else
-                  ++total.rt_step;
-                // even tangential position, no mashing, no axial compression: exact
-                if (tp % 2 == 0 && mash == 1 && pc->get_min_ring_difference(sg) == pc->get_max_ring_difference(sg)
-                    && !(nb == b))
-                  ofail("roundtrip-even", "round trip of an uncompressed bin with even tangential position is not exact: " + bstr(b)
-                                              + " -> " + bstr(nb));
-              }
+            lor_dir_defect_applies = false;
           }
       }
 
       // ---- ORACLE: the physical detector positions of the bin
-      if (pn && t == 0)
+      if (pn)
         {
+          // (every TOF bin: the spatial coordinates of a bin do not depend on its TOF position)
           std::vector<DetectionPositionPair<>> dps;
           pn->get_all_det_pos_pairs_for_bin(dps, b, true);
           if (dps.empty())
@@ -541,7 +700,7 @@ run_pdi(const Cfg& c, const shared_ptr<Scanner>& scanner, const shared_ptr<ProjD
             }
           const double n = dps.size();
           as /= n, adphi /= n, am /= n, att /= n, ard /= n;
-          if (to_model)
+          if (to_model && t == 0)
             {
               std::fprintf(ops, "det %d %d %d %d\n", sg, v, a, tp);
               std::fprintf(out, "%d %s %s %s %s\n", (int)dps.size(), H(as), H(adphi), H(am), H(att));
@@ -594,10 +753,77 @@ run_pdi(const Cfg& c, const shared_ptr<Scanner>& scanner, const shared_ptr<ProjD
                   || !near(l.tantheta, tt, 1e-4 * (1 + std::fabs(tt)) * (Reff * Reff) / (Reff * Reff - s * s))
                   || !(std::fabs(l.phi - phi) <= (tp % 2 == 0 ? 1e-4 : half_view + 1e-4)))
                 ofail("det-uncompressed", "find_cartesian_coordinates_of_detection is not on the line of bin " + bstr(b));
-              // and the detectors are found again from the coordinates
-              Bin fb;
-              pn->find_bin_given_cartesian_coordinates_of_detection(fb, c1, c2);
-              // (coordinates are relative to the first ring here; only the transaxial part is compared)
+            }
+          // ---- detection positions -> Cartesian coordinates -> detection positions / bin (find_scanner_coordinates_given_cartesian_coordinates,
+          //      find_bin_given_cartesian_coordinates_of_detection): every contributing detector pair is found again, also from points
+          //      moved outwards along the line, and belongs to this bin
+          if (to_model || idx % 4 == 1)
+          {
+            const std::size_t stride = dps.size() > 6 ? dps.size() / 3 : 1;
+            for (std::size_t k = 0; k < dps.size(); k += stride)
+              {
+                const auto& dp = dps[k];
+                const int e1 = dp.pos1().tangential_coord(), e2 = dp.pos2().tangential_coord();
+                const int q1 = dp.pos1().axial_coord(), q2 = dp.pos2().axial_coord();
+                CartesianCoordinate3D<float> c1, c2;
+                pn->find_cartesian_coordinates_given_scanner_coordinates(c1, c2, q1, q2, e1, e2, 0);
+                const int f = rng.range(0, 4); // eighths of the chord by which both points are moved outwards
+                const CartesianCoordinate3D<float> dv = c1 - c2;
+                const CartesianCoordinate3D<float> g1 = c1 + dv * (f / 8.F), g2 = c2 - dv * (f / 8.F);
+                int d1 = -1, d2 = -1, r1 = -1, r2 = -1;
+                ++oracle_checks;
+                ++total.found;
+                if (pn->find_scanner_coordinates_given_cartesian_coordinates(d1, d2, r1, r2, g1, g2) != Succeeded::yes
+                    || !((d1 == e1 && r1 == q1 && d2 == e2 && r2 == q2) || (d1 == e2 && r1 == q2 && d2 == e1 && r2 == q1)))
+                  ofail("find-scanner-coordinates", "find_scanner_coordinates_given_cartesian_coordinates does not find the detectors ("
+                                                        + std::to_string(e1) + "," + std::to_string(q1) + ")-(" + std::to_string(e2) + ","
+                                                        + std::to_string(q2) + ") of bin " + bstr(b) + " from their coordinates (found ("
+                                                        + std::to_string(d1) + "," + std::to_string(r1) + ")-(" + std::to_string(d2) + ","
+                                                        + std::to_string(r2) + "))");
+                Bin fb;
+                fb.set_bin_value(1);
+                pn->find_bin_given_cartesian_coordinates_of_detection(fb, g1, g2);
+                ++oracle_checks;
+                if (fb.get_bin_value() < 0 || fb.segment_num() != sg || fb.view_num() != v || fb.axial_pos_num() != a
+                    || fb.tangential_pos_num() != tp || fb.timing_pos_num() != 0)
+                  ofail("find-bin", "find_bin_given_cartesian_coordinates_of_detection of the coordinates of a detector pair of bin " + bstr(b)
+                                        + " gives " + (fb.get_bin_value() < 0 ? std::string("miss") : bstr(fb)));
+                if (to_model && k == 0 && t == 0)
+                  {
+                    std::fprintf(ops, "fbin %d %d %d %d %d %d\n", e1, q1, e2, q2, f, (int)dps.size());
+                    std::fprintf(out, "%s\n", fb.get_bin_value() < 0 ? "miss" : bstr(fb).c_str());
+                  }
+              }
+          }
+          // ---- TOF: every (detector pair, unmashed timing position) of the bin belongs to the bin
+          if (p.is_tof_data() && (to_model || idx % 5 == 0))
+            {
+              std::vector<DetectionPositionPair<>> all;
+              pn->get_all_det_pos_pairs_for_bin(all, b, false);
+              ++oracle_checks;
+              if (all.size() % dps.size() != 0 || all.empty())
+                ofail("det-tof-count", "number of (detector pair, timing position) combinations of bin " + bstr(b)
+                                           + " is not a multiple of the number of detector pairs");
+              const std::size_t st = all.size() > 8 ? all.size() / 4 : 1;
+              for (std::size_t k = 0; k < all.size(); k += st)
+                {
+                  Bin fb;
+                  ++oracle_checks;
+                  if (pn->get_bin_for_det_pos_pair(fb, all[k]) != Succeeded::yes || fb.segment_num() != sg || fb.view_num() != v
+                      || fb.axial_pos_num() != a || fb.tangential_pos_num() != tp || fb.timing_pos_num() != t)
+                    ofail("det-tof-bin", "a (detector pair, timing position " + std::to_string((int)all[k].timing_pos()) + ") listed for bin "
+                                             + bstr(b) + " belongs to bin " + bstr(fb));
+                }
+              // opposite TOF bins: the detection coordinates are exchanged
+              if (mash == 1 && lo == hi && t != 0 && -t >= mint && -t <= maxt)
+                {
+                  CartesianCoordinate3D<float> c1, c2, o1, o2;
+                  pn->find_cartesian_coordinates_of_detection(c1, c2, b);
+                  pn->find_cartesian_coordinates_of_detection(o1, o2, Bin(sg, v, a, tp, -t, 1.F));
+                  ++oracle_checks;
+                  if (norm(c1 - o2) > 1e-3 || norm(c2 - o1) > 1e-3)
+                    ofail("det-tof-direction", "opposite TOF bins do not have exchanged detection coordinates at bin " + bstr(b));
+                }
             }
         }
     }
@@ -633,6 +859,8 @@ build(const Cfg& c, shared_ptr<Scanner>& scanner)
   try
     {
       pdi = vh::make_pdi(scanner, c.span, c.max_delta, c.views, c.ntang, c.arc, c.tof_mash);
+      if (c.geom != "cyl" && c.tof_mash > 0)
+        pdi->set_tof_mash_factor(c.tof_mash); // (construct_proj_data_info ignores the TOF mashing factor for blocks / generic scanners)
       // force the lazily built tables, so that range errors show up here
       if (auto pn = dynamic_cast<const ProjDataInfoCylindricalNoArcCorr*>(pdi.get()))
         {
@@ -742,14 +970,40 @@ run_generic(const Cfg& c, const shared_ptr<Scanner>& scanner, const shared_ptr<P
   int emitted = 0;
   long nbins = 0, exact = 0, missed = 0;
   const double zc = 0; // detector coordinates from the scanner are centred
+  const ProjDataInfoBlocksOnCylindricalNoArcCorr* pb = dynamic_cast<const ProjDataInfoBlocksOnCylindricalNoArcCorr*>(pdi0.get());
+  const std::vector<int> tofs = pick(p.get_min_tof_pos_num(), p.get_max_tof_pos_num(), 3, rng);
   for (int sg : segs)
     for (int a : pick(p.get_min_axial_pos_num(sg), p.get_max_axial_pos_num(sg), thorough ? 8 : 4, rng))
       for (int v : views)
         for (int tp : tps)
+         for (int t : tofs)
           {
-            const Bin b(sg, v, a, tp, 0, 1.F);
+            const Bin b(sg, v, a, tp, t, 1.F);
             ++nbins;
             ++total.bins;
+            if (pg->get_min_ring_difference(sg) != pg->get_max_ring_difference(sg))
+              {
+                // axially compressed data: the coordinates must be those of the contributing detector pairs (averaged)
+                ++oracle_checks;
+                bool threw = false;
+                try
+                  {
+                    (void)p.get_s(b);
+                    (void)p.get_m(b);
+                  }
+                catch (...)
+                  {
+                    threw = true;
+                  }
+                if (threw)
+                  {
+                    known("generic:no-coordinates-for-axially-compressed-bins",
+                          "ProjDataInfoGeneric::get_LOR / get_s / get_phi / get_m / get_tantheta call error() for every bin of an axially "
+                          "compressed segment (span > 1) of a blocks-on-cylindrical or generic scanner (get_ring_pair_for_segment_axial_pos_num "
+                          "\"does not work for data with axial compression\"), although construct_proj_data_info builds such data");
+                    continue;
+                  }
+              }
             int d1, d2, r1, r2;
             pg->get_det_pair_for_bin(d1, r1, d2, r2, b);
             {
@@ -760,6 +1014,68 @@ run_generic(const Cfg& c, const shared_ptr<Scanner>& scanner, const shared_ptr<P
             const CartesianCoordinate3D<float> x1 = scanner->get_coordinate_for_det_pos(DetectionPosition<>(d1, r1, 0));
             const CartesianCoordinate3D<float> x2 = scanner->get_coordinate_for_det_pos(DetectionPosition<>(d2, r2, 0));
             const double s = p.get_s(b), phi = p.get_phi(b), m = p.get_m(b), tt = p.get_tantheta(b);
+            if (t != 0)
+              {
+                // TOF bins: same line as TOF bin 0, opposite distances for opposite bins, and the round trip keeps the TOF bin
+                const Bin b0(sg, v, a, tp, 0, 1.F);
+                ++oracle_checks;
+                if (p.get_s(b0) != s || p.get_phi(b0) != phi || p.get_m(b0) != m || p.get_tantheta(b0) != tt)
+                  ofail("generic-tof-spatial", "the spatial coordinates of bin " + bstr(b) + " differ from those of its TOF bin 0");
+                const double k = p.get_k(b);
+                if (!near(p.get_k(Bin(sg, v, a, tp, -t, 1.F)), -k, 1e-5 * (1 + std::fabs(k))) || !((t > 0) == (k > 0)))
+                  ofail("generic-k-antisym", "opposite TOF bins do not have opposite distances at bin " + bstr(b));
+                ++oracle_checks;
+                LORAs2Points<float> phys(x1, x2);
+                Bin nb;
+                bool err = false;
+                try
+                  {
+                    nb = p.get_bin(phys, p.get_tof_delta_time(b));
+                  }
+                catch (...)
+                  {
+                    err = true;
+                  }
+                if (err)
+                  known("generic:get_bin-no-tof",
+                        "ProjDataInfoGenericNoArcCorr::get_bin calls error() (\"does not support TOF yet\") when given the time difference of a "
+                        "bin with a non-zero TOF position of TOF blocks-on-cylindrical / generic data (set_tof_mash_factor on a TOF-ready "
+                        "scanner), so the round trip cannot return the same TOF bin");
+                else if (nb.get_bin_value() <= 0 || nb.segment_num() != sg || nb.view_num() != v || nb.axial_pos_num() != a
+                         || nb.tangential_pos_num() != tp || nb.timing_pos_num() != t)
+                  ofail("generic-tof-roundtrip", "get_bin of the detector positions and time difference of bin " + bstr(b) + " is not that bin");
+                continue; // (everything below does not depend on the TOF position)
+              }
+            if (pb)
+              {
+                // ---- detection coordinates -> detection positions / bin (find_scanner_coordinates_given_cartesian_coordinates,
+                //      find_bin_given_cartesian_coordinates_of_detection of the blocks geometry)
+                CartesianCoordinate3D<float> c1, c2;
+                pb->find_cartesian_coordinates_of_detection(c1, c2, b);
+                int e1 = -1, e2 = -1, q1 = -1, q2 = -1;
+                ++oracle_checks;
+                ++total.found;
+                if (pb->find_scanner_coordinates_given_cartesian_coordinates(e1, e2, q1, q2, c1, c2) != Succeeded::yes || e1 != d1 || e2 != d2
+                    || q1 != r1 || q2 != r2)
+                  ofail("blocks-find-scanner-coordinates",
+                        "find_scanner_coordinates_given_cartesian_coordinates does not find the detectors of bin " + bstr(b)
+                            + " from find_cartesian_coordinates_of_detection");
+                Bin fb;
+                fb.set_bin_value(1);
+                pb->find_bin_given_cartesian_coordinates_of_detection(fb, c1, c2);
+                ++oracle_checks;
+                if (fb.get_bin_value() < 0 || fb.segment_num() != sg || fb.view_num() != v || fb.axial_pos_num() != a
+                    || fb.tangential_pos_num() != tp)
+                  ofail("blocks-find-bin", "find_bin_given_cartesian_coordinates_of_detection(find_cartesian_coordinates_of_detection(bin)) is "
+                                               + (fb.get_bin_value() < 0 ? std::string("miss") : bstr(fb)) + " for bin " + bstr(b));
+                // exchanged points: the same bin
+                pb->find_bin_given_cartesian_coordinates_of_detection(fb, c2, c1);
+                ++oracle_checks;
+                if (fb.get_bin_value() < 0 || fb.segment_num() != sg || fb.view_num() != v || fb.axial_pos_num() != a
+                    || fb.tangential_pos_num() != tp)
+                  ofail("blocks-find-bin-exchanged", "find_bin_given_cartesian_coordinates_of_detection with the two points exchanged is "
+                                                         + (fb.get_bin_value() < 0 ? std::string("miss") : bstr(fb)) + " for bin " + bstr(b));
+              }
             if (emitted < (thorough ? 300 : 60) && rng.range(0, 3) == 0)
               {
                 ++emitted;
@@ -1052,6 +1368,369 @@ run_arc(vh::Rng& rng, int ncases)
 }
 
 // ---------------------------------------------------------------------------------------------
+static int largest_complete_max_delta(int span, int R, vh::Rng& rng, bool full);
+// the five ArcCorrection overloads other than Sinogram (each with its own loop) on multi-ring, view-mashed, axially compressed and TOF
+// data, compared with the row-by-row result of the Sinogram overload (whose rows go to the model as `arc` lines)
+template <class A>
+static bool
+same_all(const A& x, const A& y)
+{
+  if (x.size_all() != y.size_all())
+    return false;
+  auto i = x.begin_all_const();
+  auto j = y.begin_all_const();
+  for (; i != x.end_all_const(); ++i, ++j)
+    if (!(*i == *j))
+      return false;
+  return true;
+}
+
+static void
+emit_arc_row(const ArcCorrection& ac, const Scanner& sc, const Array<1, float>& in, const Array<1, float>& res)
+{
+  const ProjDataInfoCylindricalArcCorr& pa = ac.get_arc_corrected_proj_data_info();
+  const ProjDataInfoCylindricalNoArcCorr& pn = ac.get_not_arc_corrected_proj_data_info();
+  const int imin = pn.get_min_tangential_pos_num(), imax = pn.get_max_tangential_pos_num();
+  const int omin = pa.get_min_tangential_pos_num(), omax = pa.get_max_tangential_pos_num();
+  std::ostringstream line, o;
+  line << "arc " << sc.get_num_detectors_per_ring() << " " << vh::hex(sc.get_effective_ring_radius()) << " " << imin << " " << imax << " "
+       << omin << " " << omax << " " << vh::hex(pa.get_tangential_sampling()) << " " << vh::hex(pn.get_angular_increment()) << " |";
+  for (int i = imin; i <= imax; ++i)
+    line << " " << vh::hex(in[i]);
+  for (int j = omin; j <= omax; ++j)
+    o << (j > omin ? " " : "") << vh::hex(res[j]);
+  std::fprintf(ops, "%s\n", line.str().c_str());
+  std::fprintf(out, "%s\n", o.str().c_str());
+  ++total.arc_rows;
+}
+
+static void
+run_arc_overloads(vh::Rng& rng, int ncases)
+{
+  for (int k = 0; k < ncases; ++k)
+    {
+      Cfg c;
+      c.N = 2 * rng.range(4, thorough ? 40 : 20);
+      c.R = rng.range(2, 4);
+      c.radius = (float)(rng.range(400, 4000) / 8.0);
+      c.doi = (float)(rng.range(0, 80) / 8.0);
+      c.binsize = (float)(rng.range(4, 40) / 8.0);
+      c.span = (k % 2) ? 3 : 1;
+      c.max_delta = largest_complete_max_delta(c.span, c.R, rng, rng.range(0, 1) == 0);
+      std::vector<int> divs;
+      for (int d = 1; d <= c.N / 4; ++d)
+        if ((c.N / 2) % d == 0)
+          divs.push_back(d);
+      c.views = c.N / 2 / (k % 3 == 0 ? 1 : divs[rng.range(0, (int)divs.size() - 1)]);
+      c.ntang = rng.range(3, c.N - 1);
+      if (k % 4 == 1)
+        {
+          c.tof_bins = 3;
+          c.tof_mash = 1;
+          c.tofsize = 500.F;
+        }
+      char buf[256];
+      std::snprintf(buf, sizeof buf, "ArcCorrection overloads: N=%d R=%d span=%d max_delta=%d views=%d ntang=%d tof=%d", c.N, c.R, c.span,
+                    c.max_delta, c.views, c.ntang, c.tof_bins);
+      cur_cfg = buf;
+      shared_ptr<Scanner> sc = make_scanner(c);
+      shared_ptr<ProjDataInfo> pdi = vh::make_pdi(sc, c.span, c.max_delta, c.views, c.ntang, false, c.tof_mash);
+      ArcCorrection ac;
+      const int mode = rng.range(0, 2);
+      Succeeded ok = mode == 0   ? ac.set_up(pdi, rng.range(1, 2 * c.N), (float)(rng.range(4, 64) / 8.0))
+                     : mode == 1 ? ac.set_up(pdi, rng.range(1, 2 * c.N))
+                                 : ac.set_up(pdi);
+      ++oracle_checks;
+      if (ok != Succeeded::yes)
+        {
+          ofail("arc-setup", "ArcCorrection::set_up failed for a non-arc-corrected geometry");
+          continue;
+        }
+      shared_ptr<const ProjDataInfo> apdi = ac.get_arc_corrected_proj_data_info_sptr();
+      shared_ptr<ExamInfo> exam(new ExamInfo);
+      ProjDataInMemory in(exam, pdi), ref(exam, apdi), outp(exam, apdi);
+      outp.fill(-77.F); // every viewgram must be overwritten
+      int mint = pdi->get_min_tof_pos_num(), maxt = pdi->get_max_tof_pos_num();
+      ++oracle_checks;
+      if (apdi->get_num_tof_poss() != pdi->get_num_tof_poss() || apdi->get_min_tof_pos_num() != mint)
+        {
+          known("arccorrection:tof-positions-dropped",
+                "ArcCorrection::set_up builds the arc-corrected ProjDataInfo without the TOF mashing factor of the input, so it is non-TOF "
+                "for TOF input: do_arc_correction(ProjData&, const ProjData&) calls set_viewgram with timing positions the output does not "
+                "have (error: timing_pos_num out of range) and the other overloads return objects whose timing position is outside their "
+                "own ProjDataInfo");
+          mint = maxt = 0; // only the central TOF position can be compared
+        }
+      const int mins = pdi->get_min_segment_num(), maxs = pdi->get_max_segment_num();
+      // input: positive values on a grid of 1/64; reference: the Sinogram overload, sinogram by sinogram
+      int emitted = 0;
+      for (int t = mint; t <= maxt; ++t)
+        for (int sg = mins; sg <= maxs; ++sg)
+          {
+            SegmentBySinogram<float> seg = pdi->get_empty_segment_by_sinogram(sg, false, t);
+            for (auto it = seg.begin_all(); it != seg.end_all(); ++it)
+              *it = (float)(rng.range(1, 4096) / 64.0);
+            in.set_segment(seg);
+            for (int a = seg.get_min_axial_pos_num(); a <= seg.get_max_axial_pos_num(); ++a)
+              {
+                const Sinogram<float> si = in.get_sinogram(a, sg, false, t);
+                const Sinogram<float> so = ac.do_arc_correction(si);
+                ref.set_sinogram(so);
+                if (emitted < 3 && rng.range(0, 3) == 0)
+                  {
+                    ++emitted;
+                    const int v = rng.range(si.get_min_view_num(), si.get_max_view_num());
+                    emit_arc_row(ac, *sc, si[v], so[v]);
+                  }
+              }
+          }
+      auto fail = [&](const char* what, int sg, int t) {
+        ofail(std::string("arc-overload-") + what, std::string("ArcCorrection::do_arc_correction(") + what
+                                                       + ") differs from the sinogram-by-sinogram result (segment " + std::to_string(sg)
+                                                       + ", TOF position " + std::to_string(t) + ")");
+      };
+      // ProjData
+      ++oracle_checks;
+      if (mint == pdi->get_min_tof_pos_num())
+        {
+          if (ac.do_arc_correction(outp, in) != Succeeded::yes)
+            ofail("arc-overload-ProjData-status", "ArcCorrection::do_arc_correction(ProjData) reports failure");
+        }
+      else
+        {
+          // (TOF input, non-TOF output: see the known finding) the ProjData overload on the central TOF position only
+          shared_ptr<ProjDataInfo> pdi0(pdi->clone());
+          pdi0->set_tof_mash_factor(0);
+          ProjDataInMemory in0(exam, pdi0);
+          for (int sg = pdi->get_min_segment_num(); sg <= pdi->get_max_segment_num(); ++sg)
+            {
+              SegmentBySinogram<float> seg = pdi0->get_empty_segment_by_sinogram(sg, false, 0);
+              const SegmentBySinogram<float> src = in.get_segment_by_sinogram(sg, 0);
+              std::copy(src.begin_all_const(), src.end_all_const(), seg.begin_all());
+              in0.set_segment(seg);
+            }
+          if (ac.do_arc_correction(outp, in0) != Succeeded::yes)
+            ofail("arc-overload-ProjData-status", "ArcCorrection::do_arc_correction(ProjData) reports failure");
+        }
+      shared_ptr<VoxelsOnCartesianGrid<float>> image = vh::make_image(*pdi);
+      shared_ptr<DataSymmetriesForViewSegmentNumbers> symm(new DataSymmetriesForBins_PET_CartesianGrid(pdi, image));
+      for (int t = mint; t <= maxt; ++t)
+        for (int sg = mins; sg <= maxs; ++sg)
+          {
+            const SegmentBySinogram<float> rs = ref.get_segment_by_sinogram(sg, t);
+            const SegmentByView<float> rv = ref.get_segment_by_view(sg, t);
+            ++oracle_checks;
+            if (!same_all(outp.get_segment_by_sinogram(sg, t), rs))
+              fail("ProjData", sg, t);
+            ++oracle_checks;
+            if (!same_all(ac.do_arc_correction(in.get_segment_by_sinogram(sg, t)), rs))
+              fail("SegmentBySinogram", sg, t);
+            ++oracle_checks;
+            if (!same_all(ac.do_arc_correction(in.get_segment_by_view(sg, t)), rv))
+              fail("SegmentByView", sg, t);
+            // the two-argument forms must overwrite every row
+            {
+              SegmentBySinogram<float> o = apdi->get_empty_segment_by_sinogram(sg, false, t);
+              o.fill(-77.F);
+              ac.do_arc_correction(o, in.get_segment_by_sinogram(sg, t));
+              ++oracle_checks;
+              if (!same_all(o, rs))
+                fail("SegmentBySinogram&", sg, t);
+              SegmentByView<float> o2 = apdi->get_empty_segment_by_view(sg, false, t);
+              o2.fill(-77.F);
+              ac.do_arc_correction(o2, in.get_segment_by_view(sg, t));
+              ++oracle_checks;
+              if (!same_all(o2, rv))
+                fail("SegmentByView&", sg, t);
+            }
+            for (int v : pick(pdi->get_min_view_num(), pdi->get_max_view_num(), thorough ? 8 : 4, rng))
+              {
+                const Viewgram<float> vin = in.get_viewgram(v, sg, false, t);
+                ++oracle_checks;
+                if (!same_all(ac.do_arc_correction(vin), ref.get_viewgram(v, sg, false, t)))
+                  fail("Viewgram", sg, t);
+                Viewgram<float> o = apdi->get_empty_viewgram(v, sg, false, t);
+                o.fill(-77.F);
+                ac.do_arc_correction(o, vin);
+                ++oracle_checks;
+                if (!same_all(o, ref.get_viewgram(v, sg, false, t)))
+                  fail("Viewgram&", sg, t);
+                // related viewgrams (symmetries of a Cartesian grid: up to 8 related (view, segment) pairs)
+                const ViewSegmentNumbers vs(v, sg);
+                if (symm->is_basic(vs))
+                  {
+                    const RelatedViewgrams<float> rin = in.get_related_viewgrams(ViewgramIndices(v, sg, t), symm, false, t);
+                    const RelatedViewgrams<float> rout = ac.do_arc_correction(rin);
+                    ++oracle_checks;
+                    bool good = rout.get_num_viewgrams() == rin.get_num_viewgrams();
+                    auto ii = rin.begin();
+                    for (auto oi = rout.begin(); good && oi != rout.end(); ++oi, ++ii)
+                      good = oi->get_view_num() == ii->get_view_num() && oi->get_segment_num() == ii->get_segment_num()
+                             && oi->get_timing_pos_num() == t
+                             && same_all(*oi, ref.get_viewgram(oi->get_view_num(), oi->get_segment_num(), false, t));
+                    if (!good)
+                      fail("RelatedViewgrams", sg, t);
+                  }
+              }
+          }
+    }
+}
+
+// ---------------------------------------------------------------------------------------------
+// LOR representation changes (LORCoordinates.inl): constructors / change_representation between LORInCylinderCoordinates,
+// LORInAxial(NoArcCorr)SinogramCoordinates and LORAs2Points on generated lines (angles on a grid of pi/64 resp. pi/128)
+static void
+lor_points(CartesianCoordinate3D<float>& a, CartesianCoordinate3D<float>& b, const LORAs2Points<float>& l)
+{
+  a = l.p1();
+  b = l.p2();
+}
+static void
+run_lor_conversions(vh::Rng& rng, int ncases)
+{
+  cur_cfg = "LOR representation changes";
+  for (int k = 0; k < ncases; ++k)
+    {
+      const float R = (float)(rng.range(400, 4000) / 8.0);
+      // ---- (a) from cylinder coordinates
+      {
+        // (not exactly through the axis, and not with phi exactly 0 or pi, where float rounding decides the representation)
+        int k1 = rng.range(0, 127), k2 = (k1 + rng.range(1, 127)) % 128;
+        while (std::abs(k1 - k2) == 64 || k1 + k2 == 64 || k1 + k2 == 192)
+          k2 = (k1 + rng.range(1, 127)) % 128;
+        const int z1 = rng.range(-40, 40), z2 = rng.range(-40, 40);
+        LORInCylinderCoordinates<float> c(R);
+        c.p1().psi() = (float)(k1 * PI / 64);
+        c.p2().psi() = (float)(k2 * PI / 64);
+        c.p1().z() = (float)z1;
+        c.p2().z() = (float)z2;
+        const LORInAxialAndNoArcCorrSinogramCoordinates<float> na(c);
+        const LORInAxialAndSinogramCoordinates<float> si(c);
+        std::fprintf(ops, "lc2n %d %d %d %d\n", k1, k2, z1, z2);
+        std::fprintf(out, "%s %s %s %s %d\n", H(na.z1()), H(na.z2()), H(na.phi()), H(na.beta()), na.is_swapped() ? 1 : 0);
+        const double beta = na.beta();
+        const double tol = (4e-6 / std::max(0.02, std::cos(beta)) + 1e-6) * R + 1e-4;
+        const LORAs2Points<float> P(c);
+        const int f1 = rng.range(-2, 8), f2 = rng.range(-2, 8);
+        const CartesianCoordinate3D<float> dv = P.p1() - P.p2();
+        const LORAs2Points<float> S(P.p1() + dv * (f1 / 8.F), P.p2() - dv * (f2 / 8.F));
+        // standard range and consistency of the two sinogram forms
+        ++oracle_checks;
+        if (!(na.phi() >= 0 && na.phi() < (float)PI + 1e-6 && std::fabs(na.beta()) <= PI / 2 + 1e-6) || !near(si.phi(), na.phi(), 1e-6)
+            || !near(si.s(), R * std::sin(beta), 1e-5 * R) || si.is_swapped() != na.is_swapped() || si.z1() != na.z1() || si.z2() != na.z2())
+          ofail("lor-standard-range", "sinogram coordinates made from cylinder coordinates are outside 0<=phi<pi, |beta|<=pi/2 or inconsistent");
+        const double d12 = double(c.p1().psi()) - c.p2().psi();
+        const bool defect_class = d12 > PI - 1e-3;
+        auto cmp = [&](const LORAs2Points<float>& Q, const char* what) {
+          ++oracle_checks;
+          const bool same = norm(Q.p1() - P.p1()) <= tol && norm(Q.p2() - P.p2()) <= tol;
+          if (same)
+            return;
+          const bool exch = norm(Q.p1() - P.p2()) <= tol && norm(Q.p2() - P.p1()) <= tol;
+          if (exch && defect_class && lor_dir_defect_present)
+            known("lor:cylinder-to-sinogram-direction",
+                  "LORInAxialAnd(NoArcCorr)SinogramCoordinates constructed from a LORInCylinderCoordinates with psi1 - psi2 in (pi, 2pi) "
+                  "exchanges the two end points but reports is_swapped() == false (get_sino_coords, LORCoordinates.inl): the direction of "
+                  "the LOR is reversed");
+          else
+            ofail(std::string("lor-convert-") + what,
+                  std::string("the LOR with cylinder coordinates psi1=") + std::to_string(k1) + "pi/64 psi2=" + std::to_string(k2)
+                      + "pi/64 is " + (exch ? "reversed" : "another line") + " after conversion " + what);
+        };
+        cmp(LORAs2Points<float>(na), "cylinder->noarc-sinogram");
+        cmp(LORAs2Points<float>(si), "cylinder->sinogram");
+        cmp(LORAs2Points<float>(LORInCylinderCoordinates<float>(na)), "cylinder->noarc-sinogram->cylinder");
+        cmp(LORAs2Points<float>(LORInAxialAndNoArcCorrSinogramCoordinates<float>(si)), "cylinder->sinogram->noarc-sinogram");
+        cmp(LORAs2Points<float>(LORInAxialAndSinogramCoordinates<float>(na)), "cylinder->noarc-sinogram->sinogram");
+        // change_representation from every type into every type (same radius), also from stretched points
+        const LOR<float>* from[] = { &c, &na, &si, &P, &S };
+        const char* fname[] = { "cylinder", "noarc-sinogram", "sinogram", "points", "stretched-points" };
+        for (int i = 0; i < 5; ++i)
+          {
+            // (sinogram forms made from `c` may already carry the reversed direction: compare like with like)
+            LORInCylinderCoordinates<float> yc;
+            LORInAxialAndNoArcCorrSinogramCoordinates<float> yn;
+            LORInAxialAndSinogramCoordinates<float> ys;
+            LORAs2Points<float> yp;
+            const bool okc = from[i]->change_representation(yc, R) == Succeeded::yes;
+            const bool okn = from[i]->change_representation(yn, R) == Succeeded::yes;
+            const bool oks = from[i]->change_representation(ys, R) == Succeeded::yes;
+            const bool okp = from[i]->get_intersections_with_cylinder(yp, R) == Succeeded::yes;
+            ++oracle_checks;
+            if (!okc || !okn || !oks || !okp)
+              {
+                ofail(std::string("lor-change-representation-fails-") + fname[i], std::string("change_representation of a ") + fname[i]
+                                                                                      + " LOR to its own radius reports failure");
+                continue;
+              }
+            if (i == 1 || i == 2)
+              { // reference: the direction this object has
+                const LORAs2Points<float> Pi = i == 1 ? LORAs2Points<float>(na) : LORAs2Points<float>(si);
+                auto cmp2 = [&](const LORAs2Points<float>& Q, const std::string& what) {
+                  ++oracle_checks;
+                  if (!(norm(Q.p1() - Pi.p1()) <= tol && norm(Q.p2() - Pi.p2()) <= tol))
+                    ofail("lor-change-representation-" + what, "change_representation " + what + " does not give the same directed line");
+                };
+                cmp2(LORAs2Points<float>(yc), std::string(fname[i]) + "->cylinder");
+                cmp2(yp, std::string(fname[i]) + "->points");
+                cmp2(LORAs2Points<float>(yn), std::string(fname[i]) + "->noarc-sinogram");
+                cmp2(LORAs2Points<float>(ys), std::string(fname[i]) + "->sinogram");
+              }
+            else
+              {
+                cmp(LORAs2Points<float>(yc), (std::string(fname[i]) + "->cylinder (change_representation)").c_str());
+                cmp(yp, (std::string(fname[i]) + "->points (get_intersections_with_cylinder)").c_str());
+                cmp(LORAs2Points<float>(yn), (std::string(fname[i]) + "->noarc-sinogram (change_representation)").c_str());
+                cmp(LORAs2Points<float>(ys), (std::string(fname[i]) + "->sinogram (change_representation)").c_str());
+              }
+          }
+      }
+      // ---- (b) from explicit sinogram coordinates (constructor brings phi into [0,pi)), to cylinder coordinates
+      {
+        int kphi = rng.range(-64, 191);
+        const int j = rng.range(-63, 63);
+        if (kphi % 64 == 0)
+          ++kphi; // (phi exactly a multiple of pi: float rounding decides the representation)
+        const int z1 = rng.range(-40, 40), z2 = rng.range(-40, 40), sw = rng.range(0, 1);
+        const float phi = (float)(kphi * PI / 64), beta = (float)(j * PI / 128);
+        const LORInAxialAndNoArcCorrSinogramCoordinates<float> na((float)z1, (float)z2, phi, beta, R, sw != 0);
+        const LORInCylinderCoordinates<float> c(na);
+        std::fprintf(ops, "lnmk %d %d %d %d %d\n", kphi, j, z1, z2, sw);
+        std::fprintf(out, "%s %s %s %s %d\n", H(na.z1()), H(na.z2()), H(na.phi()), H(na.beta()), na.is_swapped() ? 1 : 0);
+        std::fprintf(ops, "ln2c %d %d %d %d %d\n", kphi, j, z1, z2, sw);
+        std::fprintf(out, "%s %s %s %s\n", H(c.p1().z()), H(c.p1().psi()), H(c.p2().z()), H(c.p2().psi()));
+        // ORACLE: the defining parametrisation X = s cos(phi) + a sin(phi), Y = s sin(phi) - a cos(phi); first point (z1) at a > 0
+        const double ph = kphi * PI / 64, be = j * PI / 128;
+        CartesianCoordinate3D<float> e1((float)z1, (float)(-R * std::cos(ph + be)), (float)(R * std::sin(ph + be)));
+        CartesianCoordinate3D<float> e2((float)z2, (float)(-R * std::cos(ph - be + PI)), (float)(R * std::sin(ph - be + PI)));
+        if (sw)
+          std::swap(e1, e2);
+        const double tol = 2e-5 * R + 1e-4;
+        auto cmp = [&](const LORAs2Points<float>& Q, const char* what) {
+          ++oracle_checks;
+          if (!(norm(Q.p1() - e1) <= tol && norm(Q.p2() - e2) <= tol))
+            ofail(std::string("lor-sinogram-") + what, std::string("the LOR with phi=") + std::to_string(kphi) + "pi/64 beta=" + std::to_string(j)
+                                                          + "pi/128 swapped=" + std::to_string(sw) + " is not the directed line of its definition "
+                                                          + what);
+        };
+        cmp(LORAs2Points<float>(na), "as points");
+        cmp(LORAs2Points<float>(c), "as cylinder coordinates");
+        const LORInAxialAndSinogramCoordinates<float> si(na);
+        const double tol2 = (4e-6 / std::max(0.02, std::cos(be)) + 1e-6) * R + 1e-4;
+        ++oracle_checks;
+        const LORAs2Points<float> Q(si);
+        if (!(norm(Q.p1() - e1) <= tol2 && norm(Q.p2() - e2) <= tol2))
+          ofail("lor-sinogram-arc", "LORInAxialAndSinogramCoordinates made from LORInAxialAndNoArcCorrSinogramCoordinates is another directed line");
+        const LORInAxialAndSinogramCoordinates<float> si2((float)z1, (float)z2, phi, (float)(R * std::sin(be)), R, sw != 0);
+        ++oracle_checks;
+        const LORAs2Points<float> Q2(si2);
+        if (!(norm(Q2.p1() - e1) <= tol2 && norm(Q2.p2() - e2) <= tol2))
+          ofail("lor-sinogram-arc-ctor", "LORInAxialAndSinogramCoordinates(z1,z2,phi,s,R,swapped) is not the directed line of its definition");
+      }
+    }
+}
+
+// ---------------------------------------------------------------------------------------------
 static int
 largest_complete_max_delta(int span, int R, vh::Rng& rng, bool full)
 {
@@ -1069,7 +1748,8 @@ main(int argc, char** argv)
 {
   if (argc < 5)
     return 2;
-  vh::quiet();
+  if (!std::getenv("C12_STDERR"))
+    vh::quiet();
   if (!std::getenv("C12_STDERR"))
     std::freopen("/dev/null", "w", stderr); // STIR warnings (e.g. one per missed crystal look-up) are not part of the protocol
   vh::Rng rng(std::strtoull(argv[1], nullptr, 10) * 2654435761ULL + 12);
@@ -1078,6 +1758,26 @@ main(int argc, char** argv)
   out = std::fopen(argv[4], "w");
   orc = std::fopen((std::string(argv[4]) + ".oracle").c_str(), "w");
   std::vector<Cfg> cfgs;
+  {
+    // does the conversion cylinder -> sinogram coordinates keep the direction of a LOR with psi1 - psi2 in (pi, 2pi) ?  (see `known` in run_pdi)
+    LORInCylinderCoordinates<float> c(100.F);
+    c.p1().psi() = 1.6F * (float)PI, c.p2().psi() = 0.1F * (float)PI, c.p1().z() = 1.F, c.p2().z() = 2.F;
+    const LORInAxialAndNoArcCorrSinogramCoordinates<float> na(c);
+    const LORInCylinderCoordinates<float> back(na);
+    lor_dir_defect_present = back.p1().z() != 1.F;
+    // does ProjDataInfoCylindricalArcCorr::get_bin cope with an angle a rounding error below the azimuthal offset ?
+    {
+      Cfg pc;
+      pc.N = 16, pc.R = 1, pc.span = 1, pc.max_delta = 0, pc.views = 4, pc.ntang = 7, pc.arc = true; // (mashed views: positive offset)
+      shared_ptr<Scanner> sc = make_scanner(pc);
+      shared_ptr<ProjDataInfo> pp = vh::make_pdi(sc, 1, 0, 4, 7, true, 0);
+      const ProjDataInfoCylindricalArcCorr& pa = dynamic_cast<const ProjDataInfoCylindricalArcCorr&>(*pp);
+      const LORInAxialAndNoArcCorrSinogramCoordinates<float> l(0.F, 0.F, pa.get_phi(Bin(0, 0, 0, 0)) - 1e-6F, 0.F, pa.get_ring_radius(), false);
+      view_wrap_defect_present = pa.get_bin(l, 0.).view_num() != 0;
+    }
+    std::fprintf(ops, "lorfix %d %d\n", lor_dir_defect_present ? 0 : 1, view_wrap_defect_present ? 0 : 1);
+    std::fprintf(out, "ok\n");
+  }
 
   // ---- fixed configurations (they also make every candidate-finding class show up for every seed)
   {
@@ -1221,7 +1921,7 @@ main(int argc, char** argv)
     cfgs.push_back(c); // mashing factor larger than the number of TOF bins
   }
   // ---- blocks-on-cylindrical and generic scanners
-  const int nblocks = thorough ? 24 : 6;
+  const int nblocks = thorough ? 36 : 12;
   for (int k = 0; k < nblocks; ++k)
     {
       Cfg c;
@@ -1256,6 +1956,39 @@ main(int argc, char** argv)
       c.tilt = rng.range(0, 1) ? 0.F : (float)(rng.range(-200, 200) / 1000.0);
       c.span = 1;
       c.max_delta = c.R - 1;
+      if (k % 4 == 3 && c.R >= 2)
+        { // axially compressed blocks data
+          c.span = 3;
+          c.max_delta = largest_complete_max_delta(3, c.R, rng, true);
+        }
+      if (k % 2 == 1)
+        { // TOF blocks / generic data
+          c.tof_bins = rng.range(1, 13);
+          // (Scanner::check_consistency: the coincidence window = number of TOF bins x their size must be between half and twice the
+          //  FOV diameter, and at least the timing resolution)
+          double fovd = 2 * c.radius;
+          {
+            Cfg twin = c;
+            twin.geom = "blocks";
+            twin.tof_bins = -1;
+            twin.tof_mash = 0;
+            twin.R = c.R, twin.spacing = c.ax_cryst_spacing;
+            try
+              {
+                fovd = 2 * make_scanner(twin)->get_max_FOV_radius() * (c.geom == "generic" ? 1.02 : 1.0);
+              }
+            catch (...)
+              {
+                continue;
+              }
+          }
+          c.tofsize = (float)(std::floor((0.75 + 0.7 * rng.unit()) * fovd / 0.1499 / c.tof_bins * 8) / 8.0);
+          std::vector<int> ok;
+          for (int f = 1; f <= c.tof_bins; ++f)
+            if ((c.tof_bins / f) % 2 == 1)
+              ok.push_back(f);
+          c.tof_mash = ok[rng.range(0, (int)ok.size() - 1)];
+        }
       c.views = c.N / 2;
       c.ntang = c.N - 1;
       cfgs.push_back(c);
@@ -1295,7 +2028,10 @@ main(int argc, char** argv)
               run_pdi(c, scanner, pdi, rng);
             }
           else
-            run_generic(c, scanner, pdi, rng);
+            {
+              run_tof(*pdi, rng);
+              run_generic(c, scanner, pdi, rng);
+            }
           if (!c.mapfile.empty())
             std::remove(c.mapfile.c_str());
         }
@@ -1309,13 +2045,17 @@ main(int argc, char** argv)
     {
       run_overlap(rng, thorough ? 4000 : 800);
       run_arc(rng, thorough ? 300 : 60);
+      run_arc_overloads(rng, thorough ? 60 : 12);
+      run_lor_conversions(rng, thorough ? 6000 : 1000);
     }
   catch (std::exception& e)
     {
       ofail("exception", std::string("exception in overlap/arc correction: ") + e.what());
     }
-  std::fprintf(orc, "# bins=%ld rt_same=%ld rt_step=%ld rt_wrap=%ld rt_miss=%ld det_checked=%ld configs=%d\n", total.bins, total.rt_same,
-               total.rt_step, total.rt_wrap, total.rt_miss, total.det_checked, ncfg);
+  std::fprintf(orc, "# bins=%ld rt_same=%ld rt_step=%ld rt_wrap=%ld rt_miss=%ld det_checked=%ld lor_representations=%ld detectors_found_again=%ld "
+                    "arc_rows=%ld configs=%d\n",
+               total.bins, total.rt_same, total.rt_step, total.rt_wrap, total.rt_miss, total.det_checked, total.reps, total.found,
+               total.arc_rows, ncfg);
   for (auto& kv : fail_kinds)
     std::fprintf(orc, "# fail-kind %s %ld\n", kv.first.c_str(), kv.second);
   std::fprintf(orc, "ORACLE-DONE checks=%ld fails=%ld\n", oracle_checks, oracle_fails);
